@@ -40,7 +40,8 @@ LEVEL_TEXT = ("Every non-empty increasing subsequence of the time grid {0.5,1,2,
               "<=3 setter operations over an alphabet of 12.  For each run the probe trace must equal the "
               "automaton's prediction: number and order of steps, (time, time_step, absolute_time, counter, "
               "first/last flags) in every model call, emptiness of scene/photon/charge/signal/image and the "
-              "zero/kept pixel array at the start of every step; invalid schedules must raise before any model call.")
+              "zero/kept pixel array at the start of every step; invalid schedules must raise before any model call."
+              " Family O runs observations (sequential and parallel) whose swept parameter is the readout itself (times, start time, destructive mode): every run must follow the clock and bucket lifecycle of its own readout.")
 LEVEL_NOTE = ("Bounded: 5-point dyadic time grid (all clock values exact), <=5 readouts, 2x3 detector, the value "
               "palette of the writer probe. Probe models stand in for real models (the clock/lifecycle code does not "
               "look inside a model). The processed-data container (detector.data) is not part of the statement and is "
